@@ -639,6 +639,24 @@ def run_spec(spec):
         return run_spec_positions(spec, cfg)
     m = xf.build(cfg)
     pairs = []
+    if spec.get("via") == "loaded":
+        # the model as a deployment gets it: written with save_model, read back with load_model
+        # (everything the architecture needs - masks, tables - must survive the round trip)
+        import shutil
+        import tempfile
+
+        from xformer import loading
+
+        d = tempfile.mkdtemp(prefix="c16-load-")
+        try:
+            loading.save_model(m, d)
+            keep = m
+            m = loading.load_model(d)
+            m.train(keep.training)
+            probe = (spec.get("toks") or spec["rows"][0])[: cfg.n_ctx]
+            pairs.append(("loaded-model-differs", "saved model vs the model load_model returns, on %r" % (probe[:6],), _alone(keep, cfg, probe), _alone(m, cfg, probe)))
+        finally:
+            shutil.rmtree(d, ignore_errors=True)
     if kind == "padded":
         # rows (mixed lengths, arbitrary pad content) + padding masks: every row vs itself alone
         rows, lens = spec["rows"], spec["lens"]
@@ -850,11 +868,16 @@ def gen_specs(ctx, n, cfg_fixed=None):
                 cfg.causal = True
                 cj = cfg.to_json()
         V = cfg.n_vocab
+        # (load_model builds a float32 model: only float32 configurations keep their weights exactly)
+        via = "loaded" if (cfg_fixed is None and dtype == "float32" and rng.random() < 0.4) else None
         if kind == "padded":
             rows, lens = rand_batch(rng, cfg)
             if rng.random() < 0.3:  # a single row, padded
                 rows, lens = rows[:1], lens[:1]
-            yield {"kind": kind, "cfg": cj, "rows": rows, "lens": lens}
+            sp = {"kind": kind, "cfg": cj, "rows": rows, "lens": lens}
+            if via:
+                sp["via"] = via
+            yield sp
         elif kind == "unpadded":
             n_tok = rng.randint(1, cfg.n_ctx)
             rows = [[rng.randrange(V) for _ in range(n_tok)] for _ in range(rng.randint(2, 5))]
@@ -871,7 +894,10 @@ def gen_specs(ctx, n, cfg_fixed=None):
             room = cfg.n_ctx - n_tok
             s1 = [rng.randrange(V) for _ in range(rng.randint(1, room))] if room else []
             s2 = [rng.randrange(V) for _ in range(rng.randint(1, room))] if room else []
-            yield {"kind": kind, "cfg": cj, "toks": toks, "suffix1": s1, "suffix2": s2}
+            sp = {"kind": kind, "cfg": cj, "toks": toks, "suffix1": s1, "suffix2": s2}
+            if via:
+                sp["via"] = via
+            yield sp
 
 
 def gen_position_specs(ctx, n):
